@@ -333,8 +333,8 @@ def pick(prog, run, ci, f):
     if not {"pole_ind", MAIN} <= set(apps):
         run.ob("R-pick", m.qual, "appends", False, "pick does not append to both lists", witness="missing", file=f, node=m.node)
         return
-    yv = astq.expr_at(m, apps["pole_ind"], apps["pole_ind"].args[0])
-    fv = astq.expr_at(m, apps[MAIN], apps[MAIN].args[0])
+    yv = astq.uncoerce(astq.expr_at(m, apps["pole_ind"], apps["pole_ind"].args[0]))
+    fv = astq.uncoerce(astq.expr_at(m, apps[MAIN], apps[MAIN].args[0]))
     # order index = argmin |arange(n_orders) - y|
     inner = yv
     if isinstance(inner, ast.Call) and astq.callee_name(prog, m, inner) == "int":
@@ -372,8 +372,8 @@ def pick(prog, run, ci, f):
             if isinstance(n, ast.Call) and isinstance(n.func, ast.Attribute) and n.func.attr == "append" and self_attr(n.func.value):
                 ap[n.func.value.attr] = n
         if {"freq_ind", MAIN} <= set(ap):
-            iv = astq.expr_at(g, ap["freq_ind"], ap["freq_ind"].args[0])
-            fvv = astq.expr_at(g, ap[MAIN], ap[MAIN].args[0])
+            iv = astq.uncoerce(astq.expr_at(g, ap["freq_ind"], ap["freq_ind"].args[0]))
+            fvv = astq.uncoerce(astq.expr_at(g, ap[MAIN], ap[MAIN].args[0]))
             arr = astq.argreduce(prog, g, iv, astq.ARGMIN)
             d = astq.strip_abs(prog, g, arr) if arr is not None else None
             ok = isinstance(d, ast.BinOp) and "result.freq" in astq.src(d.left) and "x_data_pole" in astq.src(d.right)
@@ -475,6 +475,44 @@ def handover(prog, run, ci, f):
         else:
             ok = isinstance(v, ast.Tuple) and len(v.elts) == 2 and self_attr(v.elts[0], MAIN) and self_attr(v.elts[1], partner)
         run.ob("R-handover", init.qual, "result = (frequencies, partner list)", ok, f"`{astq.src(v)}`", witness=astq.src(v), file=f, node=res[0], config=f"plot={mode}")
+        # the tuple holds the list OBJECTS of the moment it is made: made before the dialog runs, it follows the selection only as long as
+        # every handler changes those lists in place
+        order, k_ = {}, 0
+        stack = list(reversed(pf.node.body))
+        while stack:
+            st = stack.pop()
+            order[id(st)] = k_
+            k_ += 1
+            for fld in ("finalbody", "orelse", "body"):
+                stack.extend(reversed(getattr(st, fld, None) or []))
+            for h_ in getattr(st, "handlers", None) or []:
+                stack.extend(reversed(h_.body))
+        loops = [st for st in ast.walk(pf.node) if isinstance(st, ast.stmt) and not isinstance(st, (ast.FunctionDef, ast.If, ast.For, ast.While, ast.Try, ast.With))
+                 and any(isinstance(c_, ast.Call) and isinstance(c_.func, ast.Attribute) and c_.func.attr in ("mainloop", "exec", "exec_", "show", "wait_window") for c_ in ast.walk(st))]
+        held = [e_.attr for e_ in (v.elts if isinstance(v, ast.Tuple) else []) if self_attr(e_)]
+        early = [l_ for l_ in loops if order.get(id(l_), -1) > order.get(id(res[0]), 10 ** 9)]
+        if held and loops:
+            rebinders = []
+            for mm in ci.methods.values():
+                if mm.node.name == "__init__":
+                    continue
+                for st in ast.walk(mm.node):
+                    if isinstance(st, (ast.Assign, ast.AugAssign, ast.AnnAssign)):
+                        tg = st.targets if isinstance(st, ast.Assign) else [st.target]
+                        for t_ in tg:
+                            for e_ in (t_.elts if isinstance(t_, (ast.Tuple, ast.List)) else [t_]):
+                                if self_attr(e_) and e_.attr in held and not isinstance(st, ast.AugAssign):
+                                    rebinders.append((mm, st, e_.attr))
+            if early and rebinders:
+                mm, st, a_ = rebinders[0]
+                run.ob("R-handover", init.qual, "result follows the selection until the dialog closes", False,
+                       f"`{astq.src(res[0], 60)}` is executed before the dialog runs (`{astq.src(early[0], 40)}`), so it holds the list objects of that moment; "
+                       f"{mm.qual.split('.')[-1]} later replaces self.{a_} by a new list (`{astq.src(st, 60)}`), which the tuple does not see",
+                       witness=f"rebinding of self.{a_} in {mm.qual.split('.')[-1]}", file=f, node=st, config=f"plot={mode}")
+            else:
+                run.ob("R-handover", init.qual, "result follows the selection until the dialog closes", True,
+                       "the tuple is made after the dialog closed" if not early else "made before the dialog runs; no handler replaces the lists it holds (in-place updates only)",
+                       file=f, node=res[0], config=f"plot={mode}")
 
 
 SF = "support.sel_from_plot"
